@@ -399,9 +399,13 @@ class CmdMixin(object):
             lost = self.lost_np.pop(key, None)
             if lost is not None:
                 self.ev["c03_claim_after_wrong_removal"] += 1
-                if cm.side in lost[1] and mid != lost[0]:
-                    self.flag({"C03"}, "a side still holding the nameplate is told a different mailbox id when it claims again", st,
-                              {"name": name, "side": cm.side, "told": mid, "earlier": lost[0]})
+                if lost[1] and mid != lost[0]:
+                    # the nameplate never stopped being live (sides that never released hold it; its row was removed
+                    # wrongly, which was reported): every claimant, old or new, is told the one mailbox id
+                    self.flag({"C03"}, "a side still holding the nameplate is told a different mailbox id when it claims again"
+                              if cm.side in lost[1] else
+                              "a claimant of a nameplate that other sides still hold is told a different mailbox id than they were", st,
+                              {"name": name, "side": cm.side, "told": mid, "earlier": lost[0], "holders": sorted(lost[1])})
             n = NpInc(cm.app, name, self._new_n(), st.t)
             n.mid = mid
             n.attempts.append((cm.side, st.t))
